@@ -19,10 +19,16 @@
     panic, no missing binding or declaration, no concat arity / Uri::append panic, for any
     fuel. Each of the four remaining casts does panic on a well-typed program (K1, K11, K12:
     witnesses below), and the consistency of @names is needed (K21, found while stating the
-    invariant of this proof). Not proved: termination (fuel), programs whose declarations in
-    use keep a tag variable (K2). *)
+    invariant of this proof). Termination: for a stratified first-order program (Model/Strat.v:
+    the uses among declarations that are not memoised in the reference table are well
+    founded -- what the recursion check guarantees, re-checked by the tie on every accepted
+    program) an explicit amount of fuel suffices ([C01_stratified_programs_terminate]); hence
+    a well-typed stratified program evaluates, for all large enough fuel, to a document, a
+    located error or one of the four known cast panics ([C01_accepted_programs_evaluate]).
+    Not proved: programs whose declarations in use keep a tag variable (K2), programs that
+    apply a function through an alias or a parameter (not first order). *)
 From Oal Require Import Tag Cast CastProofs.
-From Oal Require Eval Typing TypingProofs EvalProofs.
+From Oal Require Eval Typing TypingProofs EvalProofs Strat TermProofs ClosureProofs.
 
 Theorem C01_cast_table_exact_partial : forall s t k,
   resolved t = true -> check s t = true -> admits t k = true ->
@@ -135,3 +141,31 @@ Example C01_well_typed_program_evaluates :
   Typing.wt_progb E EvalProofs.ex_P EvalProofs.ex_rs = true /\
   exists r, Eval.eval_program false EvalProofs.ex_P 50 EvalProofs.ex_rs = Eval.Ok r.
 Proof. exact TypingProofs.ex_well_typed. Qed.
+
+(** * termination and the capstone *)
+Theorem C01_stratified_programs_terminate : forall P rs,
+  Strat.stratified P rs = true -> exists N, forall n, N <= n -> Eval.eval_program false P n rs <> Eval.Fuel.
+Proof. exact TermProofs.stratified_terminates. Qed.
+Print Assumptions C01_stratified_programs_terminate.
+
+Theorem C01_accepted_programs_evaluate : forall E P rs,
+  Typing.wt_progb E P rs = true -> Strat.stratified P rs = true ->
+  exists N, forall n, N <= n ->
+    match Eval.eval_program false P n rs with
+    | Eval.Ok _ | Eval.Err _ => True
+    | Eval.Panic p => p = Eval.P_content \/ p = Eval.P_object \/ p = Eval.P_uri \/ p = Eval.P_relation
+    | Eval.Fuel => False
+    end.
+Proof. exact TermProofs.accepted_programs_evaluate. Qed.
+Print Assumptions C01_accepted_programs_evaluate.
+
+(** the hypothesis is needed: `let f x = f x;` is not stratified (the recursion check rejects it)
+    and exhausts any fuel *)
+Theorem C01_unstratified_program_loops_refuted :
+  Strat.stratified TermProofs.ex_loop TermProofs.ex_loop_rs = false /\
+  Eval.eval_program false TermProofs.ex_loop 200 TermProofs.ex_loop_rs = Eval.Fuel.
+Proof. exact TermProofs.ex_loop_not_stratified. Qed.
+Print Assumptions C01_unstratified_program_loops_refuted.
+
+Example C01_recursive_program_is_stratified : Strat.stratified ClosureProofs.ex_rec_P ClosureProofs.ex_rec_rs = true.
+Proof. exact TermProofs.ex_rec_stratified. Qed.
